@@ -35,17 +35,17 @@ func inRange(lo, hi float64, c func(float64) float64) func(float64) (float64, bo
 }
 
 var c19Fns = []c19Fn{
-	{"idInt", func(x int) int { return x }, true, inRange(-1<<53, 1<<53, func(x float64) float64 { return float64(int(x)) })},
+	{"idInt", func(x int) int { return x }, true, inRange(-1<<63, 1<<63-1024, func(x float64) float64 { return float64(int(x)) })},
 	{"idInt8", func(x int8) int8 { return x }, true, inRange(-128, 127, func(x float64) float64 { return float64(int8(x)) })},
 	{"idInt16", func(x int16) int16 { return x }, true, inRange(-32768, 32767, func(x float64) float64 { return float64(int16(x)) })},
 	{"idInt32", func(x int32) int32 { return x }, true, inRange(-1<<31, 1<<31-1, func(x float64) float64 { return float64(int32(x)) })},
-	{"idInt64", func(x int64) int64 { return x }, true, inRange(-1<<53, 1<<53, func(x float64) float64 { return float64(int64(x)) })},
-	{"idUint", func(x uint) uint { return x }, true, inRange(0, 1<<53, func(x float64) float64 { return float64(uint(x)) })},
+	{"idInt64", func(x int64) int64 { return x }, true, inRange(-1<<63, 1<<63-1024, func(x float64) float64 { return float64(int64(x)) })},
+	{"idUint", func(x uint) uint { return x }, true, inRange(0, 1<<64-2048, func(x float64) float64 { return float64(uint(x)) })},
 	{"idUint8", func(x uint8) uint8 { return x }, true, inRange(0, 255, func(x float64) float64 { return float64(uint8(x)) })},
 	{"idUint16", func(x uint16) uint16 { return x }, true, inRange(0, 65535, func(x float64) float64 { return float64(uint16(x)) })},
 	{"idUint32", func(x uint32) uint32 { return x }, true, inRange(0, 1<<32-1, func(x float64) float64 { return float64(uint32(x)) })},
-	{"idUint64", func(x uint64) uint64 { return x }, true, inRange(0, 1<<53, func(x float64) float64 { return float64(uint64(x)) })},
-	{"idUintptr", func(x uintptr) uintptr { return x }, true, inRange(0, 1<<53, func(x float64) float64 { return float64(uintptr(x)) })},
+	{"idUint64", func(x uint64) uint64 { return x }, true, inRange(0, 1<<64-2048, func(x float64) float64 { return float64(uint64(x)) })},
+	{"idUintptr", func(x uintptr) uintptr { return x }, true, inRange(0, 1<<64-2048, func(x float64) float64 { return float64(uintptr(x)) })},
 	{"idFloat32", func(x float32) float32 { return x }, true, func(x float64) (float64, bool) { return float64(float32(x)), math.Abs(x) < 1e38 }},
 	{"idFloat64", func(x float64) float64 { return x }, true, func(x float64) (float64, bool) { return x, true }},
 	{"idString", func(x string) string { return x }, false, nil},
@@ -109,7 +109,53 @@ func c19CheckResult(c *Ctx, fn string, input string, ret interface{}, err error)
 	return true
 }
 
+// c19Boundary: every integer kind's limits and their neighbours, the float64
+// neighbours of 2^63 and 2^64 (the largest float below 2^63 is 2^63-1024, below
+// 2^64 it is 2^64-2048), and a few fractions.
+var c19Boundary = []float64{0, 1, -1, 0.5, -0.5, 127, 128, -128, -129, 255, 256, 32767, 32768, -32768, -32769, 65535, 65536,
+	1<<31 - 1, 1 << 31, -1 << 31, -1<<31 - 1, 1<<32 - 1, 1 << 32, 1 << 53, 1<<53 + 2, -1 << 53, 1 << 62, 1<<63 - 1024, 1 << 63, 1<<63 + 2048,
+	12345678901234567168, 1<<64 - 2048, -1 << 62, -1 << 63, 16777216, 16777217}
+
 func init() {
+	register(&Part{Prop: "C19", Name: "numeric-boundaries", Quick: 1, Thor: 1,
+		Desc: "the 13 per-kind identity functions x 36 boundary numbers (every integer kind's limits and their neighbours, the float64 neighbours of 2^63 and 2^64): wherever Go's conversion float64 -> parameter kind is defined (integral value inside the kind's range) the function must receive exactly that value",
+		Rule: "identity functions x boundary values; non-trivial = the value is inside the kind's exact range",
+		Run: func(c *Ctx) {
+			for _, fn := range c19Fns {
+				if !fn.ident {
+					continue
+				}
+				ad := stdlib.NewECALFunctionAdapter(reflect.ValueOf(fn.f), "doc")
+				for _, x := range c19Boundary {
+					if !c.Mine() {
+						continue
+					}
+					input := fmt.Sprintf("%s(%v)", fn.name, x)
+					c.Begin(input)
+					var ret interface{}
+					var err error
+					if pk, pm := Guard(func() { ret, err = ad.Run("", nil, nil, 1, []interface{}{x}) }); pk != "" {
+						c.Viol(pk, "panic escaped the adapter: "+pm, input)
+						continue
+					}
+					if !c19CheckResult(c, fn.name, input, ret, err) {
+						continue
+					}
+					want, def := fn.conv(x)
+					if !def {
+						c.Outcome("outside-the-kind's-range (unspecified)")
+						continue
+					}
+					c.Nontrivial()
+					if err != nil || ret != want {
+						c.Viol("number-conversion:"+fn.name, fmt.Sprintf("%s: got %v / %v, expected %v", input, ret, err, want), input)
+						continue
+					}
+					c.Outcome("converted-exactly")
+				}
+			}
+			c.Sample("idUint64(1.8446744073709550e19) receives 18446744073709549568")
+		}})
 	register(&Part{Prop: "C19", Name: "synthetic-adapters", Quick: 8, Thor: 16,
 		Desc: "29 synthetic Go functions (identity per numeric kind, string, bool, interface, slice, variadic, (T,error) nil/non-nil, two results, no result, no args, panicking, nil-map write, mixed ints) x every argument vector of length 0-3 (thorough 0-4) over the 24-value universe, through ECALFunctionAdapter.Run",
 		Rule: "odometer over functions x argument vectors; non-trivial = the call returned a value (no error) or an identity function was called with an in-range number",
